@@ -183,7 +183,9 @@ func (dbc *DatabaseContext) UpdatePrincipal(ctx context.Context, updates *auth.P
 		// Update the persistent sequence number of this principal (only allocate a sequence when needed - issue #673):
 		nextSeq := uint64(0)
 
-		nextSeq, err = dbc.sequences.nextSequence(ctx)
+		// The new sequence must be greater than the principal's current one, which may have been allocated by
+		// another node from a later batch than this node's.
+		nextSeq, _, err = dbc.sequences.nextSequenceGreaterThan(ctx, princ.Sequence())
 		if err != nil {
 			return replaced, princ, err
 		}
